@@ -122,6 +122,11 @@ func (viso *VirtualISO) init() error {
 			return fmt.Errorf("getTitleID failed: %w", err)
 		}
 
+		// it's split to "XXXX-YYYYY" form and must fit to 32-bytes field of disc info sector
+		if len(gameCode) < 4 || len(gameCode) > 31 {
+			return fmt.Errorf("unexpected TITLE_ID length (%d)", len(gameCode))
+		}
+
 		volumeName = ps3ModeVolumeName
 	} else {
 		_, volumeName = filepath.Split(viso.root)
